@@ -2,16 +2,16 @@
 # confirm_seed.sh <seed dir with patch.diff + demo.rs> <features for demo: default|r1cs|min>
 # Confirms in a scratch worktree: builds in 3 configs, 101 tests pass, demo fails with the change and passes without.
 set -u
-SD="$1"; FEAT="${2:-default}"
+SD="$1"; FEAT="${2:-default}"; DEMOFLAGS="${3:-}"   # third argument: RUSTFLAGS for the demo only (e.g. "--cfg decaf377_verif")
 WT=/tmp/confirm_wt_$$
 git -C /repo worktree add -q "$WT" HEAD || exit 2
 cd "$WT"
 export CARGO_NET_OFFLINE=true CARGO_TARGET_DIR=/tmp/confirm_target
 case "$FEAT" in r1cs) F="--features r1cs";; min) F="--no-default-features";; *) F="";; esac
 cp "$SD/demo.rs" tests/seed_demo.rs
-echo "== original: demo"; cargo test --offline $F --test seed_demo 2>&1 | grep -E "^test result|panicked|error(\[|:)" | head -5
+echo "== original: demo"; RUSTFLAGS="$DEMOFLAGS" cargo test --offline $F --test seed_demo 2>&1 | grep -E "^test result|panicked|error(\[|:)" | head -5
 git apply "$SD/patch.diff" || { echo "PATCH DOES NOT APPLY"; cd /; git -C /repo worktree remove --force "$WT"; exit 3; }
 echo "== patched: builds"; for c in "" "--features r1cs" "--no-default-features"; do cargo build --offline $c 2>&1 | grep -E "^error|Finished" | head -2; done
 echo "== patched: suite"; mv tests/seed_demo.rs /tmp/seed_demo_$$.rs; cargo test --workspace --no-fail-fast --offline 2>&1 | grep -E "^test result" ; mv /tmp/seed_demo_$$.rs tests/seed_demo.rs
-echo "== patched: demo"; cargo test --offline $F --test seed_demo 2>&1 | grep -E "^test result|panicked" | head -6
+echo "== patched: demo"; RUSTFLAGS="$DEMOFLAGS" cargo test --offline $F --test seed_demo 2>&1 | grep -E "^test result|panicked" | head -6
 cd /; git -C /repo worktree remove --force "$WT"
